@@ -7,7 +7,7 @@ import Hs.Drv.C13
         query = `sup k` | `asup k` | `inh k` | `fits a b` | `refl <rec>` | `rfits <rec> base`
               | `assoc p a` | `impl k` | `froot <0..3> k` | `rel <nrecs> {recx}* <rel> <term|-> <target|-> <recx>`
                 (recx = `<key|-> <id|-> <ntags> {<tag> <ref|->}*`; these four read the full defs: use `runx`)
-    runx ...  as `run`, the graph given as `GX` (C13 part 2)
+    runx ... / tracex ...  as `run` / `trace`, the graph given as `GX` (C13 part 2)
         The model starts from cold caches, runs the given schedule, then lets the unfinished threads run
         round-robin; reply `ok <answers of thread 0>;<thread 1>;..` and, when <caches> = 1, ` # <sup cache> # <inh cache>`
         (answers of one thread joined by `/`: `n:<names>` | `b:0|1` | `!<outcome>`; a cache as `key=names` joined by `+`).
@@ -204,6 +204,27 @@ def traceReq (ts : List String) : String :=
     "ok " ++ ",".intercalate evs ++ " | " ++ ";".intercalate (s.thr.map threadAnswers)
       ++ " # " ++ showCache s.c.sup ++ " # " ++ showCache s.c.inh
 
+def tracexReq (ts : List String) : String :=
+  match pRowsX ts with
+  | none => "bad-request"
+  | some (rows, ts) =>
+  match pNat ts with
+  | none => "bad-request"
+  | some (nshards, ts) =>
+  match pThreads ts with
+  | none => "bad-request"
+  | some (qss, ts) =>
+  match pSched ts with
+  | none => "bad-request"
+  | some (sched, _) =>
+    let x := NsA.makeX rows
+    let cfg : Cfg := { ns := x.ns, fuel := fuelFor x.ns.defs, shard := shardOf nshards, xd := x.xd }
+    let (s, evs) := sched.foldl (fun (acc : State × List String) t =>
+      let (s', e) := toBoundary cfg t 100000000 acc.1
+      (s', acc.2 ++ [e])) (init cfg cold qss, [])
+    "ok " ++ ",".intercalate evs ++ " | " ++ ";".intercalate (s.thr.map threadAnswers)
+      ++ " # " ++ showCache s.c.sup ++ " # " ++ showCache s.c.inh
+
 def pEntry : P (Name × V) := fun ts => do
   let (k, ts) ← pH ts
   let (v, ts) ← pNames ts
@@ -244,6 +265,7 @@ def handle (ts : List String) : String :=
     else if cmd = "runx" then runxReq rest
     else if cmd = "inv" then invReq rest
     else if cmd = "trace" then traceReq rest
+    else if cmd = "tracex" then tracexReq rest
     else "bad-request"
   | [] => "bad-request"
 
